@@ -496,8 +496,13 @@ func (op *redirOp) exec(fm *Frame, fops *[]formOwnedPort) Exception {
 			// file or channel, as in "echo foo >b 2>&1 >&2".
 			for i, port := range fm.ports {
 				if i != dst && port == *dstPort {
-					*growAccess(fops, i) = *dstFop
-					*dstFop = formOwnedPort{File: false, Chan: false}
+					// Only an owner has something to hand over; if this fd
+					// merely shares the port, the record of the fd that owns
+					// it must stay as it is.
+					if dstFop.File || dstFop.Chan {
+						*growAccess(fops, i) = *dstFop
+						*dstFop = formOwnedPort{File: false, Chan: false}
+					}
 					return
 				}
 			}
